@@ -1,6 +1,7 @@
 package sender
 
 import (
+	"fmt"
 	"io"
 	"path/filepath"
 	"strings"
@@ -59,6 +60,11 @@ func RecvFilterList(c *rsyncwire.Conn) (*filterRuleList, error) {
 			return nil, err
 		}
 		l.addRule(fr)
+		if fr.flag&filtruleWild != 0 {
+			// Reject what we cannot honor instead of panicking later, when
+			// the rule is first matched against a file name.
+			return nil, fmt.Errorf("wildcard filter rules not yet implemented: %q", line)
+		}
 	}
 	return &l, nil
 }
